@@ -5,7 +5,9 @@ includes parseable-but-non-conformant variants) and spec/DeserTrace.tla.
 
 G (spec -> code): every abstract transition of Deser.tla comes with a shortest history; the harness's own
 bit writer (nothing from vc2_conformance) turns it into bytes; Deserialiser -> (if it completes) Serialiser on
-the resulting description -> Deserialiser again.  T (code -> spec): the recorded round trips of those streams
+the resulting description -> Deserialiser again.  The alphabet includes units that carry one huge exp-Golomb value
+(31 .. 100 data bits, four bit patterns; the code's bit string and its value as limbs are derived by TLC and written
+bit for bit).  T (code -> spec): the recorded round trips of those streams
 and of seeded byte/bit-level mutants of them (and of library-serialised streams with random coefficients) are
 judged by TLC against DeserTrace.tla: parsed => re-serialised, same bytes, same description.
 """
@@ -100,13 +102,13 @@ def coeff_bits(vals, big, n):
     return bits
 
 
-def hq_slice(w, var, rnd, prefix_bytes, scaler, big=None):
+def hq_slice(w, var, rnd, prefix_bytes, scaler, big=None, n=4):
     w.bytes_(bytes(rnd.randrange(256) for _ in range(prefix_bytes)))
     w.nbits(8, rnd.randrange(0, 64))  # qindex
     bigcomp = rnd.randrange(3) if big else -1
     for comp in range(3):
         vals = [rnd.choice([0, 0, 1, -1, 2, -3, 7, -12, 100]) for _ in range(4)]
-        bits = coeff_bits(vals, big if comp == bigcomp else None, 4)
+        bits = coeff_bits(vals, big if comp == bigcomp else None, n)
         need = (len(bits) + 8 * scaler - 1) // (8 * scaler)
         if var == "exact" or var == "prefix":
             ln = need
@@ -135,7 +137,7 @@ def hq_slice(w, var, rnd, prefix_bytes, scaler, big=None):
 LD_BIG_SLICE_BYTES = 64  # room for a 201-bit code
 
 
-def ld_slice(w, var, rnd, big=None):
+def ld_slice(w, var, rnd, big=None, n=4):
     total = 8 * (LD_BIG_SLICE_BYTES if big else LD_SLICE_BYTES)
     start = len(w.bits)
     w.nbits(7, rnd.randrange(0, 64))
@@ -144,8 +146,8 @@ def ld_slice(w, var, rnd, big=None):
     yv = [rnd.choice([0, 1, -1, 2, -5]) for _ in range(4)]
     cv = [rnd.choice([0, 1, -1, 3]) for _ in range(8)]
     inluma = bool(big) and rnd.random() < 0.5
-    yb = coeff_bits(yv, big if inluma else None, 4)
-    cb = coeff_bits(cv, big if big and not inluma else None, 8)
+    yb = coeff_bits(yv, big if inluma else None, n)
+    cb = coeff_bits(cv, big if big and not inluma else None, 2 * n)
     fill = 0
     if var == "exact":
         ylen = min(len(yb), left)
@@ -199,6 +201,7 @@ def build_bytes(hist, seed):
     w = BW()
     ver = 3
     hqp = (0, 1)
+    nco = 4  # coefficients per component: 2x2 frames, 2x1 fields
     prev_off = None
     offs = []
     how = "clean"
@@ -284,7 +287,9 @@ def build_bytes(hist, seed):
                 w.bit(1)
                 w.uint(9)  # colour matrix index unknown (substituted), still round-trips
                 w.bit(0)
-            w.uint(rnd.choice([0, 1]))
+            pcm = rnd.choice([0, 1])  # picture coding mode: frames / fields
+            nco = 2 if pcm else 4
+            w.uint(pcm)
             w.bits += [fill] * ((-len(w.bits)) % 8)
         elif k == "PIC":
             prof = u["prof"]
@@ -295,9 +300,9 @@ def build_bytes(hist, seed):
             w.bits += [fill] * ((-len(w.bits)) % 8)
             if prof == "hq":
                 hqp = (2, 2) if u["sl"] == "prefix" else (0, 1)
-                hq_slice(w, u["sl"], rnd, *hqp, big=cbig)
+                hq_slice(w, u["sl"], rnd, *hqp, big=cbig, n=nco)
             elif prof == "ld":
-                ld_slice(w, u["sl"], rnd, big=cbig)
+                ld_slice(w, u["sl"], rnd, big=cbig, n=nco)
         elif k == "FRAG0":
             prof = u["prof"]
             pc = PCODES[(k, prof)]
@@ -320,7 +325,7 @@ def build_bytes(hist, seed):
             w.nbits(16, 2 if u["at"] == "oob" else 0)
             if prof == "hq":
                 var = u["sl"] if u["sl"] != "prefix" else "exact"
-                hq_slice(w, var, rnd, *hqp, big=big)
+                hq_slice(w, var, rnd, *hqp, big=big, n=nco)
             else:
                 ld_slice(w, u["sl"], rnd)
         elif k == "DATA":
@@ -735,7 +740,7 @@ def run(ctx):
         import glob
 
         def produce_sim():
-            sim = tlc.run("Deser", open(os.path.join(tlc.SPEC, "mc/Deser.cfg")).read().replace("MaxLen = 12", "MaxLen = 14"), simulate=3000, depth=16, seed=ctx.seed, workers=1, timeout=1200)
+            sim = tlc.run("Deser", open(os.path.join(tlc.SPEC, "mc/Deser.cfg")).read().replace("MaxLen = 12", "MaxLen = 14").replace("WithBig = TRUE", "WithBig = FALSE"), simulate=3000, depth=16, seed=ctx.seed, workers=1, timeout=1200)
             out = []
             for p in sorted(glob.glob(os.path.join(sim.sim_dir, "tr*"))):
                 sts = sim_states(p)
